@@ -218,7 +218,7 @@ def op_stdcmp(c):
     objs, to_close = objects()
     FIELDS = ["opcode", "opname", "arg", "offset", "target", "line"]
     for name, o in objs:
-        for first_line in (None, 1, 500):
+        for first_line in (None, 0, 1, 500):
             api = "get_instructions" + ("" if first_line is None else "(first_line)")
             try:
                 d = [row_dis(i) for i in (dis.get_instructions(o) if first_line is None else dis.get_instructions(o, first_line=first_line))]
@@ -307,7 +307,7 @@ def op_stdcmp(c):
         try:
             co = o if isinstance(o, types.CodeType) else (compile(o, "<disassembly>", "exec") if isinstance(o, str) else None)
             base = [i.starts_line for i in S.get_instructions(o)]
-            for f in (1, 77, 100000):
+            for f in (0, 1, 77, 100000):
                 sh = [i.starts_line for i in S.get_instructions(o, first_line=f)]
                 from xdis.cross_dis import get_code_object
                 fl = get_code_object(o).co_firstlineno
